@@ -142,6 +142,9 @@ def deviation_programs(moddir_rel):
     res.append(("outside-cwd", {"main.capy": prog('m :: #import("../outside.capy");'), "../outside.capy": a}, False, None, "outside"))
     res.append(("outside-cwd-via-subdir", {"main.capy": prog('m :: #import("d/../../outside.capy");'), "../outside.capy": a, "d/x.capy": a}, False, None, "outside"))
     res.append(("outside-cwd-sibling-with-cwd-prefix", {"main.capy": prog('m :: #import("../w2/a.capy");'), "../w2/a.capy": a}, False, None, "outside"))
+    res.append(("outside-moddir-sibling-with-moddir-prefix", {"main.capy": prog(f'm :: #import("{moddir_rel}extra/helper.capy");'),
+                                                           f"{moddir_rel}extra/helper.capy": a}, False, None, "outside"))
+    res.append(("outside-cwd-sibling-dash", {"main.capy": prog('m :: #import("../w-shared/a.capy");'), "../w-shared/a.capy": a}, False, None, "outside"))
     res.append(("inside-moddir-by-relative-path", {"main.capy": prog(f'm :: #import("{moddir_rel}/good/src/mod.capy");')}, True, "555 ", None))
     res.append(("mod/good", {"main.capy": prog('m :: #mod("good");')}, True, "555 ", None))
     res.append(("mod/core", {"main.capy": prog('m :: #mod("core");', 'printf("%ld ", 1);')}, True, "1 ", None))
